@@ -53,4 +53,41 @@ mod verif_oracle_xof {
             }
         }
     }
+
+    // unit xof_inits: the two other XOFs absorb EVERY byte of EVERY dst part, in order: the stream depends only on the concatenated
+    // dst (any split gives the same stream) and on every one of its bytes (flipping any single byte of any part changes it).
+    fn check_parts<const N: usize, P: Xof<N>>(name: &str, max_dst: usize) {
+        let seed = [0x5au8; N];
+        for &dl in &[0usize, 1, 2, 8, 9, 16, 17, 31, 32, 33, 64, 200, 255, 256, 1000] {
+            if dl > max_dst { continue; }
+            let dst = bytes(dl, 3);
+            let binder = bytes(20, 4);
+            let mut whole = [0u8; 48];
+            P::seed_stream(&seed, &[&dst[..]], &[&binder[..]]).fill_bytes(&mut whole);
+            for &cut in &[0usize, 1, 8, dl / 2, dl.saturating_sub(1), dl] {
+                let cut = cut.min(dl);
+                let mut got = [0u8; 48];
+                P::seed_stream(&seed, &[&dst[..cut], &dst[cut..]], &[&binder[..7], &binder[7..]]).fill_bytes(&mut got);
+                if got != whole { println!("COUNTEREXAMPLE {}::seed_stream: a dst of {} bytes given as two parts split at {} gives another stream than the same dst in one part: not every byte of every dst part is absorbed in order", name, dl, cut); return; }
+                let c2 = cut / 2;
+                P::seed_stream(&seed, &[&dst[..c2], &dst[c2..cut], &dst[cut..]], &[&binder[..]]).fill_bytes(&mut got);
+                if got != whole { println!("COUNTEREXAMPLE {}::seed_stream: a dst of {} bytes given as three parts ({}, {}, {}) gives another stream than in one part", name, dl, c2, cut - c2, dl - cut); return; }
+            }
+            // every single byte matters, wherever the split is
+            for pos in [0usize, dl / 2, dl.saturating_sub(1)] {
+                if dl == 0 { break; }
+                let mut d2 = dst.clone(); d2[pos] ^= 0x40;
+                let cut = 8.min(dl);
+                let mut b = [0u8; 48];
+                P::seed_stream(&seed, &[&d2[..cut], &d2[cut..]], &[&binder[..]]).fill_bytes(&mut b);
+                if b == whole { println!("COUNTEREXAMPLE {}::seed_stream: two dst strings of {} bytes (parts of {} and {} bytes) differing only in byte {} give the same stream: that byte is not bound", name, dl, cut, dl - cut, pos); return; }
+            }
+        }
+    }
+    #[test]
+    fn oracle_hmac_parts() { check_parts::<32, XofHmacSha256Aes128>("XofHmacSha256Aes128", 255); }
+    #[test]
+    fn oracle_fixed_key_parts() { check_parts::<16, XofFixedKeyAes128>("XofFixedKeyAes128", 65535); }
+    #[test]
+    fn oracle_turboshake_parts() { check_parts::<32, XofTurboShake128>("XofTurboShake128", 65535); }
 }
